@@ -27,8 +27,10 @@ Item(k) ==
       \* lines whose last character is the one-digit literal 0
       \* the very operand texts of the fault statements, used validly inside a block that defines the name locally
       [] k = "localdef" -> <<"{", "nosuchsymbol := 5", "lda.w nosuchsymbol", "lda nosuchsymbol", ".dw 1, nosuchsymbol", "}">>
+      \* rows of the same data directive as the fault statement `.dw 1, nosuchsymbol`
+      [] k = "dwrows"  -> <<".dw 1, 2", ".dw 3, 4 ; second row", "", ".dw 5, 6">>
       [] k = "zeroend" -> <<"lda #0", ".db 1, 0", "zsym = 0">>
-PreKinds == {"blank", "comment", "eolc", "stmt", "label", "mlc", "mlc1", "block", "macro", "data", "scope", "tabs", "ffc", "vtstr", "zeroend", "localdef"}
+PreKinds == {"blank", "comment", "eolc", "stmt", "label", "mlc", "mlc1", "block", "macro", "data", "scope", "tabs", "ffc", "vtstr", "zeroend", "localdef", "dwrows"}
 
 \* fault statements: text, whether the error is lexical, offset of the offending character in the text
 Fault(k) ==
